@@ -14,7 +14,7 @@ pub static DEF: PropDef = PropDef {
     rule: "exhaustive: every string up to the stated length over {a,SP,TAB,NL,',\",\\,é} x EVERY cut set of its byte stream (each string is one case, evaluations count string x cut-set pairs); random: byte strings up to ~20 KiB (tokens straddling the 4096-byte refill edge, long quoted runs, arbitrary bytes incl. invalid UTF-8, CR/FF/VT) x generated chunkings (1-byte, after-backslash, inside quotes, inside multi-byte characters, 4096-aligned), default mode and -0/-d C. Oracles: (i) chunking invariance against the single-read result, (ii) reference splitter written from the statement on its specified sub-domain, (iii) delimiter mode = non-empty fields, bytes unchanged; 1 in 30 random inputs also through the xargs binary + rec. Non-trivial = input has a quote or backslash (delimiter mode: a quote, backslash or non-UTF-8 byte) AND some cut falls inside a token / multi-byte character / at the 4096 edge. Distinct = distinct case JSON.",
     assumptions: &[
         "the readers are reached through the feature-gated hook xargs::verif_hooks::read_args (the Read it wraps hands out caller-chosen chunk sizes); the end-to-end sample goes through the real binary and pipe",
-        "an empty quoted string standing alone, a backslash at end of input, and CR/FF/VT are outside the reference splitter's domain (the statement does not fix them) but inside the chunking-invariance check",
+        "an empty quoted string standing alone, a backslash at end of input, are outside the reference splitter's domain (the statement does not fix them) but inside the chunking-invariance check; CR, FF and VT are neither blanks nor newlines: ordinary bytes of an argument",
     ],
     run,
     replay,
@@ -37,9 +37,6 @@ pub fn reference_split(input: &[u8]) -> Ref {
     let mut quote: Option<u8> = None;
     let mut escaped = false;
     for &c in input {
-        if matches!(c, b'\r' | 0x0c | 0x0b) && quote.is_none() && !escaped {
-            return Ref::Unspecified;
-        }
         if let Some(q) = quote {
             if c == q {
                 quote = None;
